@@ -8,7 +8,7 @@
     property text (logical parents, nearest captured ancestor, values, enter/exit counts, follows-from
     edges among captured spans, closed = no handle, not entered, no open child), then the storage read
     off the final forest. *)
-From TT Require Import Capture.LayerProofs Capture.Footprint.
+From TT Require Import Capture.LayerProofs Capture.Footprint Judge.C05C16Proofs.
 
 (** The whole captured forest — spans and events the filter enabled, in emission order, metadata,
     values, parent links, child / event / follows-from lists, root lists, enter and exit counts, closed
@@ -61,6 +61,19 @@ Proof. exact counters_are_counts. Qed.
 
 Theorem C05_counts_ignore_order : forall P a b, Permutation.Permutation a b -> count_ops P a = count_ops P b.
 Proof. exact count_ops_perm. Qed.
+
+(** the judge of the correspondence run ([Judge/C05.v]) on the model's own output: within the
+    hypotheses an implementation that does what the model does is judged [Agree]; and [Agree] pins the
+    implementation's storage to the specification's *)
+Theorem C05_judge_ok_on_model : forall p ids f,
+  wf_prog_b p = true -> single_threaded p = true ->
+  judge_capture p ids f (storage_of (layer_run (feval f) ids p)) = Agree.
+Proof. exact judge_capture_ok_on_model. Qed.
+
+Theorem C05_judge_agree_means : forall p ids f impl,
+  judge_capture p ids f impl = Agree ->
+  impl = Some (spec_storage (feval f) ids p) /\ impl = storage_of (layer_run (feval f) ids p).
+Proof. exact judge_capture_agree. Qed.
 
 (** Non-vacuity.  Sites: 0 = INFO span "fib" {approx, iter}, 1 = DEBUG event, 2 = TRACE span "child".
     Program: outer (INFO) > mid (TRACE, filtered out by [FLevel LInfo]) > leaf (INFO, explicit parent
